@@ -260,6 +260,7 @@ type c42Run struct {
 	inconclusive bool
 	recs, hsRecs []wireRec
 	delivered    []byte
+	afterError   bool // Read handed out data (or nil error) after having returned an error
 }
 
 // c42Execute performs handshake, capture, tamper and delivery.
@@ -324,8 +325,9 @@ func c42Execute(k *c42Case, si *suiteInfo, sent []byte) (out c42Run) {
 	srv := bfe_tls.Server(sEnd, srvCfg)
 	hsDone := make(chan error, 1)
 	type srvRes struct {
-		got []byte
-		err error
+		got        []byte
+		err        error
+		afterError bool
 	}
 	resCh := make(chan srvRes, 1)
 	go func() {
@@ -340,11 +342,20 @@ func c42Execute(k *c42Case, si *suiteInfo, sent []byte) (out c42Run) {
 			n, err := srv.Read(buf)
 			got = append(got, buf[:n]...)
 			if err != nil {
-				resCh <- srvRes{got, err}
+				// an application that reads again after an error must not be handed anything either
+				for i := 0; i < 3; i++ {
+					n2, err2 := srv.Read(buf)
+					if n2 > 0 || err2 == nil {
+						got = append(got, buf[:n2]...)
+						resCh <- srvRes{got, fmt.Errorf("harness: Read after error %v returned %d bytes, err=%v", err, n2, err2), true}
+						return
+					}
+				}
+				resCh <- srvRes{got, err, false}
 				return
 			}
 			if len(got) > len(sent)+1<<20 {
-				resCh <- srvRes{got, fmt.Errorf("harness: server delivered more than 1MB beyond what was sent")}
+				resCh <- srvRes{got, fmt.Errorf("harness: server delivered more than 1MB beyond what was sent"), false}
 				return
 			}
 		}
@@ -391,7 +402,7 @@ func c42Execute(k *c42Case, si *suiteInfo, sent []byte) (out c42Run) {
 	}
 	mB.CloseWrite()
 	r := <-resCh
-	out.got, out.err = r.got, r.err
+	out.got, out.err, out.afterError = r.got, r.err, r.afterError
 	out.inconclusive = wd.stop()
 	sEnd.Close()
 	mA.Close()
@@ -496,6 +507,10 @@ func c42Check(tb ev.TB, rec *ev.Rec, k *c42Case) {
 	w["got_len"] = len(run.got)
 	w["expected_len"] = expLen
 
+	if run.afterError {
+		rec.Fail(tb, "read-after-error-not-sticky/"+si.class, w, "%v (%s %s)", run.err, si.name, versName(k.Vers))
+		return
+	}
 	if !bytes.HasPrefix(sent, run.got) {
 		rec.Fail(tb, "not-a-prefix/"+si.class, w, "server application received %d bytes that are not a prefix of the %d bytes sent (%s %s, %d records intact)", len(run.got), len(sent), si.name, versName(k.Vers), n)
 		return
